@@ -2,7 +2,7 @@
 (***************************************************************************)
 (* C17 universe generation.                                                *)
 (*  - every literal content over Alphabet up to MaxLen symbols that can be *)
-(*    written at all (ReadsBack of LexLit), with its raw text between      *)
+(*    written in both quote styles (ReadsBack of LexLit), raw text between *)
 (*    double quotes as the printer of Lexical.tla writes it;               *)
 (*  - every service-function shape: 0..MaxArgs arguments x (no throws      *)
 (*    clause | 0..MaxThrows throws entries) x oneway, with the id pattern  *)
